@@ -75,6 +75,10 @@ package fiatshamir
 //@ + invariant[all-bound-values-hashed] stage == 2 && nb == len(challenge.bindings) && isnil(callarg1)
 //@ cut after call Sum #1
 //@ + ghost summed = true
+//@ ghost stored = false
+//@ cut before call mapupdate #1
+//@ + invariant[record-stored] summed && callarg2.isComputed && callarg2.position == pos && !same(callarg2.value, resultof_Sum) && len(callarg2.value) == len(resultof_Sum) && forall(j, 0, len(resultof_Sum), callarg2.value[j] == resultof_Sum[j])
+//@ + ghost stored = true
 //@ loop 0
 //@ + invariant[index] -1 <= rangeindex && rangeindex < len(challenge.bindings) && stage == 2 && nb == rangeindex + 1
 //@ + havoc nb
@@ -82,6 +86,8 @@ package fiatshamir
 //@ ensures[fresh-result] isnil(result1) ==> fresh(result0)
 //@ ensures[order] isnil(result1) && found && !computed && pos > 0 ==> !prevnil && prevpos == pos - 1
 //@ ensures[digest] isnil(result1) && found && !computed ==> summed && same(result0, resultof_Sum)
+//@ ensures[stored] isnil(result1) && found && !computed ==> stored
+//@ ensures[recompute-returns-stored-value] found && computed ==> isnil(result1) && len(result0) == len(challenge.value) && forall(j, 0, len(challenge.value), result0[j] == challenge.value[j])
 //@ ensures[recompute-keeps-order] found && computed ==> t.previous == old(t.previous)
 //@ ensures[refused-keeps-order] !isnil(result1) ==> t.previous == old(t.previous)
 //@ ensures[advance] isnil(result1) && found && !computed ==> !isnil(t.previous) && t.previous.position == pos
